@@ -169,6 +169,7 @@ type shared struct {
 	fresh       int
 	allocN      int
 	entryHeap   map[string]string
+	mapValTy    map[string]int // map-value heap key -> layout id of the pointee, for maps whose values are tracked pointers
 	unsupported []string
 	assumptions map[string]bool
 	ufs         map[string]string
@@ -653,6 +654,13 @@ var intKeyRange = map[string][2]string{
 
 // heapTypeAxiom: every cell of an integer heap holds a value of its machine type.
 func (v *VC) heapTypeAxiom(nm, key string) string {
+	if id, ok := v.mapValTy[key]; ok {
+		// Go is type safe: a non-nil *T stored in a map points to a T (the fact rangeFact states for loaded values)
+		srt := v.heapKeys[key] // RAW:(Array Ptr (Array K Ptr))
+		ks := strings.TrimSuffix(strings.TrimPrefix(srt, "RAW:(Array Ptr (Array "), " Ptr))")
+		sel := fmt.Sprintf("(select (select %s m) k)", nm)
+		return fmt.Sprintf("(assert (forall ((m Ptr) (k %s)) (! (=> (not (= %s nilp)) (= (tyof %s) %d)) :pattern (%s))))", ks, sel, sel, id, sel)
+	}
 	if r, ok := intKeyRange[key]; ok {
 		return fmt.Sprintf("(assert (forall ((p Ptr)) (! (and (<= %s (select %s p)) (<= (select %s p) %s)) :pattern ((select %s p)))))", r[0], nm, nm, r[1], nm)
 	}
@@ -816,6 +824,15 @@ func (v *VC) mapKeys(mt *types.Map) (dk, vk, ks, vs string) {
 	vk = "mapval:" + tn
 	v.registerKey(dk, fmt.Sprintf("RAW:(Array Ptr (Array %s Bool))", ks))
 	v.registerKey(vk, fmt.Sprintf("RAW:(Array Ptr (Array %s %s))", ks, vs))
+	if pt, ok := mt.Elem().Underlying().(*types.Pointer); ok {
+		if id := v.pointeeID(pt.Elem()); id > 0 {
+			if v.mapValTy == nil {
+				v.mapValTy = map[string]int{}
+			}
+			v.mapValTy[vk] = id
+			v.features["tyof"] = true
+		}
+	}
 	return
 }
 
